@@ -91,6 +91,25 @@ R3_FNS = [APPEND_BATCH, CLEAR, VAP, MAKE_RO, FLUSH_ALL, FLUSH_INFOS, READ_INFOS_
 MISS_IDIOM = {(READ_INFOS_VEC, RA_READ)}
 
 
+def _places_of(st):
+    out = []
+    if st["k"] != "assign":
+        return out
+    rv = st["rv"]
+    if "place" in rv:
+        out.append(rv["place"])
+    for k in ("op", "l", "r", "x"):
+        if k in rv and isinstance(rv[k], dict):
+            p = rv[k].get("c") or rv[k].get("m")
+            if p:
+                out.append(p)
+    for o in rv.get("ops", []):
+        p = o.get("c") or o.get("m")
+        if p:
+            out.append(p)
+    return out
+
+
 def r3(ctx, prop=P, rule="C10.R3"):
     S, _ = storage_set(ctx)
     commit_callees = (BF_UPDATE, BF_SET_RANGE, UCL, MT_COMMIT, EVENTS_SEND, MT_ADD_NODE)
@@ -121,18 +140,33 @@ def r3(ctx, prop=P, rule="C10.R3"):
                     am = [tr for _, o, tr, fl in bool_switches(fa, lambda o: strip(o)[0] == "field" and strip(o)[2] == "allow_miss")]
                     br = [x for x, tt in fa.calls() if tt.get("callee") in BRANCH]
                     r = fa.reach(ch["err"], avoiding=br, include_src=True)
+                    # the error kind that may be read as a miss: RandomAccessError::OutOfBounds only
+                    oob_idx = None
+                    for b_ in fa.live():
+                        for st in b_.stmts:
+                            for pl in _places_of(st):
+                                for e in pl["p"]:
+                                    if isinstance(e, dict) and e.get("n") == "OutOfBounds":
+                                        oob_idx = e["d"]
+                    oob_edges = []
+                    if oob_idx is not None:
+                        for bb, o, tg, other in switch_edges_on(fa, lambda o: o[0] == "disc" and o[1][0] == "err" and s in call_root_bb(o[1][1])):
+                            if oob_idx in tg:
+                                oob_edges.append(tg[oob_idx])
                     for bb in r:
                         for si, st in enumerate(fa.blocks[bb].stmts):
                             if st["k"] == "assign" and st["rv"]["k"] == "agg" and st["rv"].get("name") == "std::result::Result" and st["rv"]["variant"] == "Ok":
                                 if not any(fa.dominates(a, bb) for a in am):
-                                    idiom_bad.append(loc(fa, bb, si))
-                    note = " (reviewed idiom: only the allow_miss arm turns the error into a recorded miss)"
+                                    idiom_bad.append("%s: Ok built on the error side without the allow_miss test" % loc(fa, bb, si))
+                                elif not any(fa.dominates(e, bb) for e in oob_edges):
+                                    idiom_bad.append("%s: an error other than OutOfBounds is turned into a miss" % loc(fa, bb, si))
+                    note = " (reviewed idiom: only an OutOfBounds read under allow_miss is recorded as a miss)"
                 later = [x for x, tt in fa.calls() if x in r and (tt.get("callee") in RA_ALL or callee_of(tt) in S or callee_of(tt) in commit_callees)]
                 writes = [(bb, si, p) for bb, si, p in assign_sites_prefix(fa, "self") if bb in r]
                 good = not later and not writes and not idiom_bad and (any(x in r for x in fa.returns) or bool(note))
                 ctx.check(prop, rule, "%s: error edge of %s @%s" % (fname.split("::")[-1], c.split("::")[-1], _ord(fa, s)), good,
                           "error edge returns without further storage operation or in-memory commit" + note,
-                          "after a failed %s at %s the function continues with %s" % (c, loc(fa, s), [site_desc(fa, x) for x in later] + ["%s %s=" % (loc(fa, bb, si), p) for bb, si, p in writes]),
+                          "after a failed %s at %s the function continues with %s" % (c, loc(fa, s), [site_desc(fa, x) for x in later] + ["%s %s=" % (loc(fa, bb, si), p) for bb, si, p in writes] + idiom_bad),
                           [site_desc(fa, s)], key="%s|%s|%s|%s|continues after error" % (prop, rule, fname, c))
     if n < 25 and ctx.crate.name == "hypercore":
         ctx.missing(prop, rule, "checked storage calls in the mutating entry points", "only %d found (floor 25)" % n)
